@@ -27,6 +27,7 @@ def run_mutations(mutations):
                 f.write(src.replace(old, new))
             extract.REPO = tmp
             extract._cache.clear()
+            os.environ["VF_SELFTEST"] = "1"
             mod = importlib.import_module(modname)
             reps = generate(mod, [qual])
             obs = [o for r in reps for o in r.obligations if o.kind != "canary"]
@@ -37,6 +38,7 @@ def run_mutations(mutations):
             if not red and not undecided:
                 errors.append(f"self-test: the deliberate edit {old.strip()[:50]!r} -> {new.strip()[:50]!r} in {qual} left every obligation green (contract too weak or engine unsound)")
         finally:
+            os.environ.pop("VF_SELFTEST", None)
             extract.REPO = real_repo
             extract._cache.clear()
             shutil.rmtree(tmp, ignore_errors=True)
